@@ -164,3 +164,53 @@ def _mk_gbound(lmax, tier='quick'):
 _mk_gbound(1)
 _mk_gbound(2, 'thorough')
 _mk_gbound(3, 'thorough')
+
+
+@obligation('C03.mie.history_two_wavelengths', functions=['holopy.scattering.theory.mie.Mie._scat_coeffs',
+                                                          'holopy.scattering.theory.mie.Mie.raw_cross_sections',
+                                                          ML + 'cross_sections'],
+            stubs=['miescatlib.scatcoeffs := uninterpreted coefficients a_l(m, x), b_l(m, x) (3 orders); nstop := 3'],
+            nvalid=2, timeout_s=120,
+            bounds='ONE Mie object used for the same sphere and medium at two symbolic wavelengths (then the first '
+                   'again): every result is built from the coefficients at ITS size parameter k r, with ITS prefactor '
+                   '2 pi/k^2')
+def mie_history(S):
+    _setup(S)
+    S.patch(mie_mod, '_COMPILED_FORTRAN', True, both=True)
+    A = [S.cfunc(f'a{l}', 2) for l in (1, 2, 3)]
+    B = [S.cfunc(f'b{l}', 2) for l in (1, 2, 3)]
+
+    class _Lib:
+        cross_sections = staticmethod(miescatlib.cross_sections)
+        asymmetry_parameter = staticmethod(miescatlib.asymmetry_parameter)
+
+        @staticmethod
+        def nstop(x):
+            return 3
+
+        @staticmethod
+        def scatcoeffs(m, x, lmax, eps1, eps2):
+            obj = object if S.sym else complex
+            return np.array([[f(m, x) for f in A], [f(m, x) for f in B]], dtype=obj)
+    S.patch(mie_mod, 'miescatlib', _Lib, both=True)
+    theory = mie_mod.Mie()
+    r, n, nm = 0.5, 1.59, 1.33          # concrete sphere and medium: only the wavelength changes between calls
+    k1, k2 = S.real('k1', lo=1, hi=50), S.real('k2', lo=1, hi=50)
+    S.assume(k1 != k2)
+    sph = Sphere(n=n, r=r, center=(0, 0, 0))
+    two_pi = 2 * S.pi if S.sym else 2 * np.pi
+
+    def expected(k):
+        al = [f(n / nm, k * r) for f in A]
+        bl = [f(n / nm, k * r) for f in B]
+        csca, cext, _ = ref_cross_sections(al, bl)
+        return two_pi / (k * k) * csca, two_pi / (k * k) * cext
+    S.assume(ref_cross_sections([f(n / nm, k1 * r) for f in A], [f(n / nm, k1 * r) for f in B])[0] > 0)
+    S.assume(ref_cross_sections([f(n / nm, k2 * r) for f in A], [f(n / nm, k2 * r) for f in B])[0] > 0)
+    for tag, k in (('first', k1), ('second_wavelength', k2), ('first_again', k1)):
+        cs = theory.raw_cross_sections(sph, k, nm, None)
+        if tag == 'first':
+            S.observe('cs', cs[0])
+        sca, ext = expected(k)
+        S.claim_eq(f'{tag}.scattering', cs[0], sca)
+        S.claim_eq(f'{tag}.extinction', cs[2], ext)
